@@ -355,7 +355,7 @@ def run(rec, shard, nshards, t):
     rnd = core.rng_for('C12', shard)
     tmp = tempfile.mkdtemp(prefix='vt-c12-')
     try:
-        for i in range((1200 if t == 'quick' else 15000) // nshards):
+        for i in range((1200 if t == 'quick' else 60000) // nshards):
             txns, hostile = gen_txns(rnd)
             judge(rec, txns, hostile, rnd, tmp, with_views=rnd.random() < .5)
             if i < 1 and shard == 0:
